@@ -109,6 +109,41 @@ def cases(tier, rng):
         yield [14, s.replace(";", "\n")], s.replace(";", "\n").splitlines(keepends=True) if False else _lines(s.replace(";", "\n")), "lines"
 
 
+def date_cases(tier, rng):
+    import datetime
+    from . import dates
+    fmts = ["%Y/%m/%d", "%Y-%m-%d %H:%M:%S", "%d/%m/%Y", "%Y%m%d", "%m%d", "%d%m%Y %H%M", "%H:%M", "%Y.%m.%d  %H:%M:%S.%f", "%S%M%H",
+            "%d-%m", "%m/%Y", "%Y%m%d%H%M%S", "%d %m %Y", "%%%Y"]
+
+    def pstrp(s, f):
+        try:
+            return [dates.dt_tuple(datetime.datetime.strptime(s, f))]
+        except ValueError:
+            return []
+    n = 60 if tier == "quick" else 1500
+    for f in fmts:
+        tk = dates.tokens(f)
+        for _ in range(n):
+            d = datetime.datetime(rng.randint(1000, 9999), rng.randint(1, 12), rng.randint(1, 28), rng.randint(0, 23), rng.randint(0, 59),
+                                  rng.randint(0, 59), rng.choice([0, 5, 123456, 999999, 100000]))
+            s = d.strftime(f)
+            yield [17, tk, dates.dt_tuple(d)], s, "strftime"
+            k = rng.random()
+            if k < 0.3:
+                pass
+            elif k < 0.6:
+                i = rng.randrange(len(s)); s = s[:i] + rng.choice("0123456789 /-:\u0663x") + s[i + 1:]
+            elif k < 0.8:
+                i = rng.randrange(len(s) + 1); s = s[:i] + s[i + 1:]
+            else:
+                i = rng.randrange(len(s) + 1); s = s[:i] + rng.choice("0123 ") + s[i:]
+            yield [16, tk, s], pstrp(s, f), "strptime"
+    for s, f in [("2020112", "%Y%m%d"), ("12", "%m%d"), ("123", "%d%m"), ("2021-02-29", "%Y-%m-%d"), ("2020-02-29", "%Y-%m-%d"),
+                 ("0000-01-01", "%Y-%m-%d"), ("02-29", "%m-%d"), ("60", "%S"), ("61", "%S"), ("1 2", "%d %m"), ("1   2", "%d %m"), (" 1", "%d"),
+                 ("1.5", "%S.%f"), ("1.1234567", "%S.%f"), ("\u0662\u0660\u0662\u0660-01-01", "%Y-%m-%d"), ("", "%Y"), ("", "%%")]:
+        yield [16, dates.tokens(f), s], pstrp(s, f), "strptime"
+
+
 def _lines(s):
     import io
     f = io.StringIO(s, newline="")
@@ -192,9 +227,15 @@ def canon(x):
     return x
 
 
-def run(tier="quick", seed=0):
+def run(tier="quick", seed=0, lite=False):
     rng = random.Random("prims-%d" % seed)
-    allc = list(cases(tier, rng)) + list(np_cases(tier, rng)) + list(table_cases(tier))
+    if lite:
+        # a fast subset for every quick run: literals over the adversarial alphabet to length 2, structured literals,
+        # renderings, codecs; the full sets run in the thorough tier
+        allc = [c for c in cases("quick", rng) if c[2] not in ("int", "float", "strip") or len(c[0][1]) <= 2 or rng.random() < 0.15]
+        allc = allc[:: 2] + list(date_cases("quick", rng)) + list(np_cases("quick", rng))[:: 3] + [c for i, c in enumerate(table_cases("quick")) if i < 0x3100 or i % 16 == 0][:: 4]
+    else:
+        allc = list(cases(tier, rng)) + list(date_cases(tier, rng)) + list(np_cases(tier, rng)) + list(table_cases(tier))
     res = lib.run_model("PRIM", [c[0] for c in allc])
     bad = []
     kinds = {}
